@@ -81,7 +81,7 @@ def main(chk: Check):
     thorough = chk.tier == "thorough"
     chk.model("Multitask_mc.cfg", tlc.run("Multitask.tla", "Multitask_mc.cfg", workers=16, timeout=1800),
               note="LawAccept, LawPairs, LawModes for n, m in 1..3 and every tuple of 0..9 values over {serial, thread, process, not-a-mode}")
-    for cfg, law in (("Multitask_flatpair.cfg", "LawModes"), ("Multitask_skiplast.cfg", "LawPairs"), ("Multitask_onemode.cfg", "LawModes")):
+    for cfg, law in (("Multitask_flatpair.cfg", "LawModes"), ("Multitask_skiplast.cfg", "LawPairs"), ("Multitask_onemode.cfg", "LawModes"), ("Multitask_taskfirst.cfg", "LawModes")):
         chk.model(cfg, tlc.run("Multitask.tla", cfg, workers=8, timeout=900), expect=law, note="named deviation")
     dump = WORK / f"multi-{os.getpid()}.dump"
     res = tlc.run("Multitask.tla", "Multitask_gen.cfg", workers=16, timeout=1800, extra=["-dump", str(dump)])
